@@ -310,7 +310,9 @@ fn main() {
         "C04" => check_c04,
         _ => { eprintln!("no falsifier for {}", prop); std::process::exit(3); }
     };
+    let progress = std::env::var("VWIT_PROGRESS").ok();
     for d in &docs {
+        if let Some(p) = &progress { let _ = std::fs::write(p, doc_text(d)); }
         if let Err(f0) = check(d) {
             // greedy shrinking: keep deleting single elements while some failure remains
             let mut cur = d.clone();
